@@ -384,7 +384,8 @@ Definition compile (v : ver) (s : st) (i : N) (o : op) : list instr :=
     fst r ++ match snd r with Some (_ :: _) => child v c i len0 len1 [] None | _ => [] end
   | OHandoff p c a len0 len1 =>
     let r := replay_events s p in
-    fst r ++ match snd r with Some (_ :: _) => child v c i len0 len1 (write_blob a) (Some a) | _ => [] end
+    (* the context bundle is written before the child is created (/repo 1b99e74) *)
+    fst r ++ match snd r with Some (_ :: _) => write_blob a ++ child v c i len0 len1 [] (Some a) | _ => [] end
   | ODropRead c =>
     let s1 := exec s (ISideRemove c) in
     ISideRemove c :: fst (replay_events s1 c)
